@@ -896,7 +896,13 @@ def hybrid_facts(ctx, H):
         F["v1.zero.ext"] = und("zero-extension update not found", None, fn)
     # digest appended to pieces
     digs = [n for n in own_nodes(fn.node) if isinstance(n, ast.Call) and isinstance(n.func, ast.Attribute) and n.func.attr == "digest" and norm(n.func.value) == acc]
-    F["v1.piece"] = Fact("one digest() per piece" if len(digs) == 1 else "%d digest() calls" % len(digs), digs[0] if digs else None, fn)
+    if not digs:
+        # no digest of the accumulator in this function at all: it is taken elsewhere (a helper, a record), not "never"
+        F["v1.piece"] = und("no digest() of the SHA-1 accumulator `%s` in this function" % acc, None, fn)
+        if "v1.zero.ext" in F and isinstance(F["v1.zero.ext"].value, str) and F["v1.zero.ext"].value.startswith("a padding entry is recorded but"):
+            F["v1.zero.ext"] = und("the SHA-1 accumulator `%s` is finished elsewhere; whether the zeros are hashed there was not followed" % acc, None, fn)
+    else:
+        F["v1.piece"] = Fact("one digest() per piece" if len(digs) == 1 else "%d digest() calls" % len(digs), digs[0], fn)
     return F
 
 
@@ -956,6 +962,25 @@ def _foreign_atoms(v, want):
 
 # facts whose value is an expression in normal form (the others are statements about the code, which may name a variable)
 EXPRESSION_FACTS = {"leaf.input", "block.size", "blocks.per.piece", "pad.elem", "pad.guard", "pad.count", "root.pad.guard", "root.pad.count", "root.pad.elem"}
+
+
+def _record_field_in(f, v, want, ctx):
+    """The extracted text reads `name.field` with name a local variable (not the receiver, not a module) of a function of the
+    fact's module, and the specification text has no such reading: the name, else None."""
+    import re
+    fn = f.fn
+    if fn is None or isinstance(fn, str) or ctx is None:
+        return None
+    for m in re.finditer(r"(?<![A-Za-z_0-9.])([a-z_][A-Za-z_0-9]*)\.([A-Za-z_][A-Za-z_0-9]*)(?!\()", v):
+        base = m.group(1)
+        if base in ("self", "os", "hashlib", "utils", "pyben") or m.group(0) in str(want):
+            continue
+        for g_ in [x for x in ctx.prog.functions.values() if x.module is fn.module]:
+            if base in g_.params:
+                continue
+            if any(isinstance(n, ast.Name) and n.id == base and isinstance(n.ctx, ast.Store) for n in own_nodes(g_.node)):
+                return base
+    return None
 
 
 def _partial_piecewise(v):
@@ -1024,6 +1049,8 @@ def judge_facts(ctx, rid, who, facts, spec, accept=None, normalise=None, why="",
             # the fact mentions a name the extractor could not reduce to the quantities the specification speaks of (an
             # attribute defined in a way it does not follow, a call of a helper): nothing can be said by comparing texts
             ctx.undecided(rid, f.fn, "%s: %s is `%s`, where %s could not be reduced to the quantities of the specification (`%s`)" % (who, k, v, ", ".join(_foreign_atoms(v, want)), want), label)
+        elif isinstance(v, str) and _record_field_in(f, v, want, ctx):
+            ctx.undecided(rid, f.fn, "%s: %s is `%s`, which reads a field of the local object `%s`; what that object holds was not followed" % (who, k, v, _record_field_in(f, v, want, ctx)), label)
         elif k in ("pad.count", "root.pad.count") and isinstance(v, str) and _partial_piecewise(v):
             ctx.undecided(rid, f.fn, "%s: %s was extracted as `%s`, a case distinction with a case missing: the other case is computed where the extractor did not look" % (who, k, v), label)
         elif k in EXPRESSION_FACTS and _unresolved_locals(f, v, want, accept.get(k, ()), ctx):
